@@ -671,3 +671,88 @@ Proof.
   intros L R. apply (select_fair_n x 4); auto; [|lia].
   unfold dist. apply Nat.mod_upper_bound. lia.
 Qed.
+
+(* ------------------------------------------------------------------ waiter ids only grow *)
+Lemma nextw_resolve o out s : nextw (resolve o out s) = nextw s.
+Proof. destruct o; reflexivity. Qed.
+Lemma nextw_takem m k s x s' : takem m k s = (x, s') -> nextw s' = nextw s.
+Proof. unfold takem. destruct (take _ _ _). intro H. inversion H. reflexivity. Qed.
+Lemma nextw_put e s : nextw (put e s) = nextw s.
+Proof. unfold put. destruct (take _ _ _). now rewrite nextw_resolve. Qed.
+Lemma nextw_alloc s x s' : alloc s = (x, s') -> nextw s' = nextw s + 1.
+Proof. unfold alloc. intro H. inversion H. reflexivity. Qed.
+Lemma nextw_ins_serial m ow st aux en cl s n s' : ins_serial m ow st aux en cl s = (n, s') -> nextw s' = nextw s.
+Proof. unfold ins_serial. destruct (alloc_serial _ _ _ _). intro H. inversion H. now rewrite nextw_put. Qed.
+Lemma nextw_send_n n k s : nextw (send_n n k s) = nextw s.
+Proof. revert s. induction n; intro s; [reflexivity|]. cbn [send_n]. now rewrite IHn. Qed.
+
+Ltac nprim :=
+  match goal with
+  | |- context [takem ?m ?k ?s] =>
+      let E := fresh "E" in destruct (takem m k s) as [? ?] eqn:E; apply nextw_takem in E
+  | |- context [ins_serial ?m ?ow ?st ?aux ?en ?cl ?s] =>
+      let E := fresh "E" in destruct (ins_serial m ow st aux en cl s) as [? ?] eqn:E; apply nextw_ins_serial in E
+  | |- context [alloc ?s] =>
+      let E := fresh "E" in destruct (alloc s) as [? ?] eqn:E; apply nextw_alloc in E
+  end.
+Ltac nnorm :=
+  cbn [fst snd ok fail] in *;
+  rewrite ?nextw_resolve, ?nextw_put, ?nextw_send_n in *;
+  cbn [nextw send set_phase set_flush set_nh set_maps set_queue set_outlog set_resolved clone_handle drop_where] in *.
+Ltac ncrush := repeat (first [nprim | split_match]); repeat (progress nnorm); try lia.
+
+Lemma nextw_req_simple m k ow aux en cl st s : nextw (fst (req_simple m k ow aux en cl st s)) = nextw s.
+Proof. unfold req_simple. ncrush. Qed.
+Lemma nextw_handle_request q ow s : nextw s <= nextw (fst (handle_request q ow s)).
+Proof.
+  unfold handle_request.
+  destruct q; cbn [has_reply handle_request_body]; rewrite ?nextw_req_simple, ?nextw_resolve; try lia;
+    unfold send_conv, req_simple; ncrush.
+Qed.
+Lemma nextw_abort_function_call n s : nextw s <= nextw (fst (abort_function_call n s)).
+Proof. unfold abort_function_call. ncrush. Qed.
+Lemma nextw_handle_message m s : nextw s <= nextw (fst (handle_message m s)).
+Proof.
+  destruct m; cbn [handle_message]; try (cbn; lia);
+    unfold reply_or_unexpected, finish_create_proxy, send_conv; ncrush.
+Qed.
+Lemma nextw_drain_head s : nextw (drain_head s) = nextw s.
+Proof. unfold drain_head. destruct (phase s); try reflexivity. destruct (_ || _); reflexivity. Qed.
+Lemma nextw_begin_shutdown b s : nextw (begin_shutdown b s) = nextw s.
+Proof. unfold begin_shutdown. now rewrite nextw_drain_head. Qed.
+Lemma nextw_after_iter s r : nextw (after_iter (s, r)) = nextw s.
+Proof.
+  unfold after_iter. destruct r; [reflexivity|]. destruct (phase s); try reflexivity.
+  destruct (nh s =? 1); [apply nextw_begin_shutdown|reflexivity].
+Qed.
+
+Theorem nextw_step s inp : nextw s <= nextw (step s inp).
+Proof.
+  unfold step. destruct inp as [q| [m|e] | | n | [e|] ].
+  - destruct (phase s); unfold enqueue, reject; destruct (has_reply q); cbn; lia.
+  - destruct (phase s); try (cbn; lia).
+    + destruct m; try (rewrite (surjective_pairing (handle_message _ s)), nextw_after_iter; apply nextw_handle_message).
+      rewrite nextw_begin_shutdown. lia.
+    + destruct m; try lia. rewrite nextw_drain_head. cbn. lia.
+  - destruct (phase s); cbn; lia.
+  - destruct (phase s); try lia.
+    + destruct (queue s) as [|[q ow] r] eqn:Q; [lia|].
+      destruct q;
+        try (match goal with |- context [handle_request ?q0 _ _] =>
+               rewrite (surjective_pairing (handle_request q0 ow (set_queue r s))), nextw_after_iter;
+               apply (nextw_handle_request q0 ow (set_queue r s)) end).
+      rewrite nextw_begin_shutdown, nextw_resolve. cbn. lia.
+    + destruct (queue s) as [|[q ow] r] eqn:Q; [lia|]. rewrite nextw_resolve. cbn. lia.
+  - destruct (phase s); try lia.
+    rewrite (surjective_pairing (abort_function_call n s)), nextw_after_iter. apply nextw_abort_function_call.
+  - destruct (phase s); cbn; lia.
+  - destruct (phase s); try lia.
+    + unfold ok. rewrite nextw_after_iter. cbn. lia.
+    + unfold ok. rewrite nextw_after_iter. cbn. lia.
+    + rewrite nextw_drain_head. cbn. lia.
+Qed.
+Lemma nextw_run ins s : nextw s <= nextw (run s ins).
+Proof.
+  revert s. induction ins as [|x r IH]; intro s; [cbn; lia|].
+  cbn [run fold_left]. fold (run (step s x) r). pose proof (nextw_step s x). pose proof (IH (step s x)). lia.
+Qed.
